@@ -249,6 +249,7 @@ PROPS['C12'] = {
 PROPS['C01']['nx'] = {'mlstring': 'L3 (third text-replacing rule): re-indentation of multi-line strings keeps every interior line\'s value (bounded stand-in)'}
 PROPS['C01']['not_decided'][0] = 'multi-line string re-indentation is covered only by a bounded stand-in (native exhaustive execution), not by a proof'
 PROPS['C03']['nx'] = {'mlstring': 're-indenting a re-indented literal is the identity (bounded stand-in)'}
+PROPS['C09']['kx']['lexcomplex'] = 'single-line tokens (text literals, single-line comments, asm strings) stop before CR as well as LF, so a CR of the input never becomes token text'
 PROPS['C09']['nx'] = {'mlstring': 'interior lines of a re-indented literal are re-joined with the configured line ending; LF, CR and CRLF all end a line (bounded stand-in)'}
 PROPS['C09']['not_decided'] = ['line terminators inside re-indented multi-line strings: bounded stand-in only']
 STANDIN = 'bounded stand-in for a function outside verifier reach: its contract executed natively on the real code over an exhaustively enumerated domain (not deductive; labelled bounded, never counted as proved)'
